@@ -310,16 +310,18 @@ def fromPasswordRc4 (P : Prims) (d : CryptDict) (id pass : Bytes) (level keyBits
   let keySize := keyBits / 8
   if keySize = 0 then .err
   else
+    -- `/EncryptMetadata` has a meaning from revision 4 on only
+    let encryptMetadata := d.encryptMetadata || decide (level < 4)
     (keyDerivUser P level keySize d id pass).bind fun key =>
     (checkPasswordRc4 P level d.u id (key.take (min keySize 16))).bind fun ok =>
-    if ok then .ok (.decoder (Decoder.mk' key keySize m d.encryptMetadata))
+    if ok then .ok (.decoder (Decoder.mk' key keySize m encryptMetadata))
     else
       (keyDerivOwner P level keySize pass).bind fun wrapKey =>
       (rc4Rounds wrapKey (roundList 0 (if level = 2 then 1 else 20)) d.o).bind fun userPw =>
       (keyDerivUser P level keySize d id userPw).bind fun key2 =>
       -- `&key[..key_size]`: in range, the key has `max key_size 16` bytes
       (checkPasswordRc4 P level d.u id (key2.take keySize)).bind fun ok2 =>
-      if ok2 then .ok (.decoder (Decoder.mk' key2 keySize m d.encryptMetadata))
+      if ok2 then .ok (.decoder (Decoder.mk' key2 keySize m encryptMetadata))
       else .ok .invalidPassword
 
 /-! ## Revision 6 hash (Algorithm 2.B) -/
